@@ -125,6 +125,9 @@ func opKindOfLine(line string, ops []sim.Op) string {
 // traceViolation compares the traces of one history across repetitions / processes / builds.
 // repeats: in-process repetitions; procs: fresh processes of this binary; builds: other binaries.
 func traceViolation(prop string, h History, repeats, procs int, tmpDir string) (*sim.Violation, error) {
+	// another world lived in this process before: the same history with the component types
+	// registered in another order (its trace is not compared); the child processes start clean
+	sim.TraceOf(prop, sim.PollutedCfg(h.Cfg), h.Ops)
 	ref := sim.TraceOf(prop, h.Cfg, h.Ops)
 	for r := 0; r < repeats; r++ {
 		tr := sim.TraceOf(prop, h.Cfg, h.Ops)
@@ -214,6 +217,10 @@ func workTraceRuns(prop, tier string, seed uint64, worker int, from, to int, o *
 			res := sim.RunMode(prop, tier, seed, worker, run, "")
 			run++
 			h := History{Cfg: res.Cfg, Ops: res.Ops}
+			if run%4 == 0 {
+				sim.TraceOf(prop, sim.PollutedCfg(h.Cfg), h.Ops) // see traceViolation
+				o.Extra["other_world_before_in_same_process"]++
+			}
 			ref := sim.TraceOf(prop, h.Cfg, h.Ops)
 			hs = append(hs, h)
 			refs = append(refs, hashTrace(ref))
